@@ -445,6 +445,9 @@ class EngineBase(metaclass=ABCMeta):
                         if keyword_strip in settings:
                             to_write = f"{keyword} {settings[keyword_strip]}\n"
                         written.add(keyword_strip)
+                    # the last line of a file may lack its line terminator
+                    if not to_write.endswith("\n"):
+                        to_write += "\n"
                     outfile.write(to_write)
                 # Add settings not yet written:
                 for key, value in settings.items():
